@@ -37,7 +37,7 @@ func genC07(t *rapid.T) c07Case {
 	n := rapid.IntRange(3, 30).Draw(t, "nops")
 	for i := 0; i < n; i++ {
 		op := c07Op{Rep: rapid.IntRange(0, c.Replicas-1).Draw(t, "rep")}
-		kinds := []string{"report", "report", "report", "report", "report", "shrink", "expand", "lost"}
+		kinds := []string{"report", "report", "report", "report", "report", "shrink", "expand", "lost", "bounce"}
 		if c.Fast {
 			kinds = append(kinds, "wait", "wait")
 		}
@@ -257,6 +257,35 @@ func runC07(c c07Case, o *vfutil.Obs) *vfutil.Failure {
 				isrChangeInRound = false
 				o.Label("failover")
 			}
+		case "bounce":
+			// the stream is paused and resumed: the partition object is rebuilt
+			// from the stored record, which must hold the same leader, epoch and
+			// in-sync set (what a snapshot restore does as well)
+			ctx, cancel := ctxFor("", 20*time.Second)
+			st := s.metadata.PauseStream(ctx, &proto.PauseStreamOp{Stream: name, Partitions: []int32{0}})
+			if st == nil {
+				st = s.metadata.ResumeStream(ctx, &proto.ResumeStreamOp{Stream: name, Partitions: []int32{0}})
+			}
+			cancel()
+			if st != nil {
+				if st.Code() == codes.Internal {
+					o.Inconclusive("raft proposal failed")
+					return nil
+				}
+				return vfutil.Failf("harness/bounce", "pause/resume: %v", st.Err())
+			}
+			if np := s.metadata.GetPartition(name, 0); np != nil {
+				p = np
+			}
+			hist = append(hist, "bounce")
+			// (the reports collected so far belong to the partition object that
+			// was replaced: a new round starts)
+			witnesses = map[string]bool{}
+			al, ae, ai, _ := snapshot()
+			if al != bl || ae != be || fmt.Sprint(ai) != fmt.Sprint(bi) {
+				return vfutil.Failf("C07/pause-resume-changes-leadership-state", "step %d, history %v: pause + resume turned leader %s, epoch %d, ISR %v into leader %s, epoch %d, ISR %v", step, hist, bl, be, bi, al, ae, ai)
+			}
+			o.Label("partition-rebuilt-by-pause-resume")
 		case "shrink", "expand":
 			if rep == leader {
 				continue // only followers are shrunk/expanded (replicator)
